@@ -9,6 +9,7 @@ import (
 	"sort"
 	"strings"
 
+	"github.com/go-python/gpython/py"
 	"github.com/go-python/gpython/simrt"
 	"github.com/go-python/gpython/simrt/simfs"
 	"github.com/go-python/gpython/zzverif/gen"
@@ -19,6 +20,7 @@ import (
 type Scenario struct {
 	Prog     *gen.ImportProg `json:"prog"`
 	Contexts int             `json:"contexts"`
+	Shared   bool            `json:"shared,omitempty"` // the contexts execute ONE code object of the main program (compiled once by the embedder)
 	Order    simrt.MapOrder  `json:"order"`
 	SSeed    uint64          `json:"sseed"`
 	PNum     int             `json:"pnum"`
@@ -43,7 +45,8 @@ func (Engine) Gen(seed uint64, idx int, tier string) interface{} {
 	}
 	sc := &Scenario{Prog: gen.GenImport(r, true), Contexts: 1, Order: simrt.MapOrder{Kind: r.Intn(4), K: r.Uint64()}, SSeed: r.Uint64(), PNum: 1 + r.Intn(50)}
 	if r.Chance(1, 4) && len(sc.Prog.Late) == 0 {
-		sc.Contexts = 2 // (files that appear at run time would be seen by both contexts: single context only)
+		sc.Contexts = 2 + r.Intn(2) // (files that appear at run time would be seen by both contexts: single context only)
+		sc.Shared = r.Chance(1, 2)
 	}
 	return sc
 }
@@ -112,7 +115,7 @@ func (Engine) Shrink(sci interface{}) []interface{} {
 		out = append(out, &c)
 	}
 	for _, p := range gen.ShrinkImport(sc.Prog) {
-		out = append(out, &Scenario{Prog: p, Contexts: sc.Contexts, Order: sc.Order, SSeed: sc.SSeed, PNum: sc.PNum})
+		out = append(out, &Scenario{Prog: p, Contexts: sc.Contexts, Shared: sc.Shared, Order: sc.Order, SSeed: sc.SSeed, PNum: sc.PNum})
 	}
 	return out
 }
@@ -182,6 +185,27 @@ func (Engine) Exec(sci interface{}, opt harness.ExecOpts) *harness.Outcome {
 		paths = append(paths, "/simcwd/"+d)
 	}
 	mainSrc, afterSrc := sc.Prog.RenderMain(), sc.Prog.RenderAfter()
+	var sharedMain, sharedAfter *py.Code
+	if sc.Shared {
+		sharedMain, _ = py.Compile(mainSrc, "<main>", py.ExecMode, 0, true)
+		sharedAfter, _ = py.Compile(afterSrc, "<after>", py.ExecMode, 0, true)
+	}
+	runProg := func(s *pyhost.Session, code *py.Code, src, name string) string {
+		if code == nil {
+			return s.Run(src, name)
+		}
+		exc := ""
+		func() {
+			defer func() {
+				if r := recover(); r != nil {
+					exc = "PANIC: " + fmt.Sprint(r)
+				}
+			}()
+			_, err := s.Ctx.RunCode(code, s.Main.Globals, s.Main.Globals, nil)
+			exc = pyhost.ExcClass(err)
+		}()
+		return exc
+	}
 	results := make([]ctxResult, sc.Contexts)
 	var sched simrt.Scheduler
 	if opt.UseSched {
@@ -200,9 +224,9 @@ func (Engine) Exec(sci interface{}, opt harness.ExecOpts) *harness.Outcome {
 			}
 			defer s.Close()
 			defer func() { results[c].trace = s.Trace }()
-			results[c].exc = s.Run(mainSrc, "<main>")
+			results[c].exc = runProg(s, sharedMain, mainSrc, "<main>")
 			s.Trace = append(s.Trace, "\"--after--\"")
-			results[c].exc2 = s.Run(afterSrc, "<after>")
+			results[c].exc2 = runProg(s, sharedAfter, afterSrc, "<after>")
 		})
 	}
 	res := sim.Run()
